@@ -11,6 +11,9 @@ from pipeline import replay_family
 from progs import Program
 
 
+SEED = 1   # set by ./check from --seed / VERIF_SEED
+
+
 class Outcome:
     def __init__(self, pid, level="model_checking"):
         self.pid = pid
@@ -69,6 +72,14 @@ def strip_lx(evs):
     return out
 
 
+def project_pair(proj, exp, act, prog):
+    """proj is either a function of one event list, or (marked with .pair) a function of
+    (expected, actual, program) returning both projections."""
+    if getattr(proj, "pair", False):
+        return proj(exp, act, prog)
+    return proj(exp), proj(act)
+
+
 def replay_violations(out, fr, proj, byid, what, max_report=5):
     """Turn mismatches whose projection differs into violations; count the others."""
     other = 0
@@ -77,7 +88,7 @@ def replay_violations(out, fr, proj, byid, what, max_report=5):
         req = m["req"]
         exp = req["ev"]
         act = strip_lx(m["actual"])
-        pe, pa = proj(exp), proj(act)
+        pe, pa = project_pair(proj, exp, act, byid[req["p"]])
         if pe == pa:
             other += 1
             continue
@@ -150,8 +161,84 @@ def proj_c04(evs):
     return out
 
 
-def proj_c05(evs):
-    return proj_tokens(evs, stop_at_invalid=True, with_errors_loc=True)
+def cut_after_nth_invalid(evs, m):
+    """events up to and including the m-th InvalidToken (m >= 1); everything if there are fewer"""
+    seen = 0
+    for i, e in enumerate(evs):
+        if e["k"] == "I":
+            seen += 1
+            if seen == m:
+                return evs[:i + 1]
+    return evs
+
+
+def first_mid_input_invalid(exp):
+    """1-based count of the first InvalidToken of the expected trace that is followed by anything
+    but None items (an error in the middle of the input), or 0"""
+    seen = 0
+    for i, e in enumerate(exp):
+        if e["k"] == "I":
+            seen += 1
+            if any(x["k"] in "ATIC" for x in exp[i + 1:]):
+                return seen
+    return 0
+
+
+def proj_c05(exp, act, prog):
+    """Everything with byte positions; compared up to the first InvalidToken raised in the middle
+    of the input (what follows such an error is C08's business), but including everything that
+    follows an error raised at the end of the input."""
+    m = first_mid_input_invalid(exp)
+    if m:
+        exp, act = cut_after_nth_invalid(exp, m), cut_after_nth_invalid(act, m)
+    f = lambda evs: proj_tokens(evs, stop_at_invalid=False, with_errors_loc=True)
+    return f(exp), f(act)
+
+
+proj_c05.pair = True
+
+
+def intrinsic_rule_sets(evs, prog):
+    """C03 on a recorded trace alone: track the active rule set from the trace's own history
+    (Init at the start and after every InvalidToken; the rule set named by the decision an action
+    took) and report the first action or token whose rule is not a rule of the active set."""
+    set_of = {}
+    menus = {}
+    ridx = 0
+    for si, (_, rs) in enumerate(prog.sets):
+        for r in rs:
+            set_of[ridx] = si
+            menus[ridx] = r
+            ridx += 1
+    active = 0
+    pending_switch = None
+    for i, e in enumerate(evs):
+        k = e["k"]
+        if k == "A":
+            if set_of.get(e["r"]) != active:
+                return ("rule %d of set %d ran while set %d was active (event %d)" % (
+                    e["r"], set_of.get(e["r"], -1), active, i))
+            d = menus[e["r"]]["menu"][e["ch"] % len(menus[e["r"]]["menu"])]
+            if d["sw"] >= 0:
+                active = d["sw"]
+        elif k == "T" and e["q"] == -1:
+            if set_of.get(e["r"]) != active:
+                return ("rule %d of set %d ran while set %d was active (event %d)" % (
+                    e["r"], set_of.get(e["r"], -1), active, i))
+        elif k == "I":
+            active = 0
+        elif k in "PH":
+            break
+    return "ok"
+
+
+def proj_c03(exp, act, prog):
+    pe = proj_tokens(exp) + [("active-rule-set", intrinsic_rule_sets(exp, prog))]
+    pa = proj_tokens(act) + [("active-rule-set", intrinsic_rule_sets(act, prog))]
+    return pe, pa
+
+
+proj_c03.pair = True
 
 
 def proj_c06(evs):
@@ -245,7 +332,11 @@ def proj_c10(evs):
 
 
 def generic_replay_check(pid, tier, progs, proj, what, rule, ctors=(0,), clone_points=False,
-                         workers=None, **kw):
+                         workers=None, seed=None, rand_runs=None, rand_len=24, **kw):
+    if seed is None:
+        seed = SEED
+    if rand_runs is None:
+        rand_runs = 60 if tier == "quick" else 400
     out = Outcome(pid)
     byid = {p.id: p for p in progs}
     fr = replay_family(pid, progs, ctors=ctors, clone_points=clone_points,
@@ -255,11 +346,17 @@ def generic_replay_check(pid, tier, progs, proj, what, rule, ctors=(0,), clone_p
     for f in fr.build_failures:
         out.notes.append("program %d dropped: %s (%s) -- judged by C12" % (
             f["program"], f["kind"], f["message"][:100]))
-    out.coverage = base_coverage(fr, rule)
+    out.coverage = base_coverage(fr, rule + "; then the real lexers are run freely on seeded random "
+                                 "inputs of up to %d characters with random decision scripts and every "
+                                 "recorded run is validated by TLC against Trace_RefLexer.tla "
+                                 "(deliberately corrupted recordings must be rejected)" % rand_len)
     out.coverage["mismatches_outside_projection"] = other
     out.coverage["dropped_programs"] = len(fr.build_failures)
     out.fr = fr
     out.byid = byid
+    if fr.ws is not None and rand_runs:
+        trace_part(out, pid, tier, progs, fr.ws, fr.batches, seed, rand_runs, rand_len, proj, what,
+                   ctors=ctors)
     return out
 
 
@@ -274,11 +371,15 @@ def check_C01(tier, seed):
     progs = (F.fixed_mm(1) + F.random_mm(seed, n, 100, k=k)
              + F.random_general(seed + 1, n // 3, 5000, k=k, nsets=(1,), nrules=(2, 3, 4, 5), p_sugar=0.3,
                                 menu_sizes=(1,), p_fal=0.0, named=False, depth=3))
+    import random
+    rnd = random.Random(seed)
     for p in progs:
         if p.id >= 5000:
+            # actions that return, continue (accumulating) or skip: fixed per rule
             for r in p.rules():
                 if r["kind"] == "inf":
-                    r["menu"] = [F.D(False, -1, 1)]
+                    r["menu"] = [rnd.choice([F.D(False, -1, 1), F.D(False, -1, 1), F.D(False, -1, 0),
+                                             F.D(True, -1, 0)])]
     return generic_replay_check(
         "C01", tier, progs, proj_tokens,
         "token sequence differs from the maximal-munch reference",
@@ -292,12 +393,13 @@ def check_C03(tier, seed):
     progs = F.random_general(seed, n, 100, k=k, nsets=(2, 2, 3, 3, 4), nrules=(0, 1, 2, 2, 3),
                              menu_sizes=(1, 2, 2, 3), p_fal=0.2)
     return generic_replay_check(
-        "C03", tier, progs, proj_tokens,
+        "C03", tier, progs, proj_c03,
         "a rule of a rule set that is not active ran (or the wrong rule set was entered)",
         "programs: seeded random definitions with 2-4 rule sets (empty ones included), every rule "
         "with a menu of 1-3 decisions among continue/return x reset x switch-to-any-rule-set; "
         + INPUTS_RULE + "compared: (rule, lexeme span) of every action and token up to the first "
-        "InvalidToken")
+        "InvalidToken, and over the whole trace that every rule that ran belongs to the rule set "
+        "that the trace's own switch decisions / failures made active")
 
 
 def check_C04(tier, seed):
@@ -504,7 +606,7 @@ def trace_part(out, pid, tier, progs, ws, batches, seed, n_runs, maxlen, proj, w
         act = strip_lx(r["ev"])
         if rq["ctor"] >= 2:
             exp = [{k: v for k, v in e.items() if k != "tx"} for e in exp]
-        pe, pa = proj(exp), proj(act)
+        pe, pa = project_pair(proj, exp, act, prog)
         if pe == pa:
             other += 1
             continue
@@ -741,6 +843,503 @@ def check_C15(tier, seed):
     return out
 
 
+# ---------------------------------------------------------------------------------------------
+# C11: character-class algebra / range map
+# ---------------------------------------------------------------------------------------------
+
+def den_points(pieces, points):
+    d = {}
+    for c in points:
+        vs = set()
+        for r in pieces:
+            if r["s"] <= c <= r["e"]:
+                vs |= set(r["v"])
+        d[c] = tuple(sorted(vs))
+    return d
+
+
+def well_formed(pieces):
+    for r in pieces:
+        if r["s"] > r["e"] or not r["v"]:
+            return False
+    for a, b_ in zip(pieces, pieces[1:]):
+        if a["e"] >= b_["s"]:
+            return False
+    return True
+
+
+def op_text(t):
+    if t["k"] == "ins":
+        return "insert(%d, %d, %s)" % (t["a"], t["b"], t["v"])
+    name = {"insr": "insert_ranges", "rem": "remove_ranges"}[t["k"]]
+    return "%s(%s)" % (name, [(r["s"], r["e"]) for r in t["m"]])
+
+
+def class_family(seed, n, base_id):
+    """One-class lexers over the digits: `<class expression> = tk(0), _ = tk(1)`."""
+    import random
+    from progs import Gen, set_, chr_, any_, alt, diff, var
+    rnd = random.Random(seed)
+    lo, hi = 48, 57
+
+    def atom():
+        r = rnd.random()
+        if r < 0.5:
+            items = []
+            for _ in range(rnd.choice([1, 2, 2, 3])):
+                a = rnd.randrange(lo, hi + 1)
+                b_ = rnd.randrange(a, hi + 1)
+                if rnd.random() < 0.3:
+                    b_ = a
+                items.append((a, b_))
+            # no repeated single characters (that is C12's family)
+            singles = [x for x in items if x[0] == x[1]]
+            if len(singles) != len(set(singles)):
+                items = list(dict.fromkeys(items))
+            return set_(items)
+        if r < 0.7:
+            return chr_(rnd.randrange(lo, hi + 1))
+        if r < 0.8:
+            return any_()
+        a = rnd.randrange(lo, hi)
+        return set_([(a, rnd.randrange(a + 1, hi + 1))])
+
+    def expr(d):
+        if d == 0 or rnd.random() < 0.25:
+            return atom()
+        r = rnd.random()
+        if r < 0.6:
+            return diff(expr(d - 1), expr(d - 1))
+        return alt(expr(d - 1), expr(d - 1))
+
+    out = []
+    tries = 0
+    while len(out) < n and tries < 100 * n:
+        tries += 1
+        e = expr(rnd.choice([1, 2, 2, 3]))
+        env = []
+        if rnd.random() < 0.3 and e["k"] in ("diff", "alt"):
+            env = [("cv", e["a"], -1)]
+            e = dict(e, a=var("cv"))
+        rules = [F.simple_rule(e), F.simple_rule(any_())]
+        pts = set()
+        from progs import class_iv
+        try:
+            iv = class_iv(e, {n_: r for n_, r, _ in env})
+        except Exception:
+            continue
+        if not iv:
+            continue
+        for a, b_ in iv:
+            pts |= {a - 1, a, b_, b_ + 1}
+        pts |= {47, 48, 57, 58}
+        pts = sorted(c for c in pts if 0 <= c <= 0x10FFFF)
+        p = Program(base_id + len(out), [("Init", rules)], env=env, sigma=pts, k=1, named=False)
+        if p.well_formed():
+            out.append(p)
+    return out
+
+
+def check_C11(tier, seed):
+    from common import Workspace, run_tlc, run_parallel, BUILD, HARNESS
+    out = Outcome("C11")
+    t0 = time.time()
+    maxpoint = 3 if tier == "quick" else 4
+    # Part 1: TLC on RangeMap.tla: every reachable representation x every operation
+    cfg = os.path.join(BUILD, "C11_rm.cfg")
+    os.makedirs(BUILD, exist_ok=True)
+    with open(cfg, "w") as f:
+        f.write("CONSTANTS\n  MaxPoint = %d\n  Values = {1, 2}\nINIT Init\nNEXT Next\n"
+                "INVARIANTS Inv StepCorrect PrintTransition\nCHECK_DEADLOCK FALSE\n" % maxpoint)
+    tlc = run_tlc("RangeMap.tla", cfg, workers=12, timeout=3000, tag="C11_rm", heap="12g")
+    if not tlc.ok:
+        raise ToolError("TLC found an error in RangeMap.tla itself:\n" + str(tlc.error))
+    trs = tlc.tagged.get("TR", [])
+    ws = Workspace("C11")
+    ws.add_crate("c11_rangemap", 'include!("%s/src/main_rangemap.rs");\n' % HARNESS)
+    ok, err = ws.build()
+    if not ok:
+        raise ToolError("range map harness does not build:\n" + err[-2000:])
+    d = os.path.join(BUILD, "C11")
+    tf = os.path.join(d, "transitions.ndjson")
+    rf = os.path.join(d, "results.ndjson")
+    with open(tf, "w") as f:
+        for t in trs:
+            f.write(json.dumps(t, separators=(",", ":")) + "\n")
+    rcs = run_parallel([[ws.binary("c11_rangemap"), tf, rf]], timeout=1200)
+    if rcs[0] != 0:
+        raise ToolError("range map harness failed (rc=%s)" % rcs[0])
+    points = list(range(0, maxpoint + 2))
+    exact = 0
+    drift = 0
+    n_tr = 0
+    with open(rf) as f:
+        for line in f:
+            r = json.loads(line)
+            if r.get("done"):
+                exact = r["exact"]
+                n_tr = r["n"]
+                continue
+            t = trs[r["i"]]
+            key = "range_map before=%s op=%s" % ([(x["s"], x["e"], x["v"]) for x in t["before"]], op_text(t))
+            if "panic" in r:
+                out.violations.append({"key": key, "desc": "RangeMap panicked: %s: %s" % (key, r["panic"][:100]),
+                                       "payload": {"kind": "rangemap", "transition": t, "panic": r["panic"]}})
+                continue
+            act = r["actual"]
+            if not well_formed(act):
+                out.violations.append({"key": key, "desc": "malformed range map after %s: %s" % (key, [(x["s"], x["e"]) for x in act]),
+                                       "payload": {"kind": "rangemap", "transition": t, "actual": act}})
+            elif den_points(act, points) != den_points(t["after"], points):
+                out.violations.append({"key": key, "desc": "wrong contents after %s: got %s expected %s" % (
+                    key, [(x["s"], x["e"], x["v"]) for x in act], [(x["s"], x["e"], x["v"]) for x in t["after"]]),
+                    "payload": {"kind": "rangemap", "transition": t, "actual": act}})
+            else:
+                drift += 1
+    out.coverage = {
+        "states": tlc.distinct, "transitions": tlc.states,
+        "traces_validated_against_impl": exact + drift,
+        "range_map_transitions_replayed": n_tr,
+        "range_map_transitions_exact": exact,
+        "range_map_transitions_same_meaning_other_split": drift,
+        "rule": "part 1: RangeMap.tla over universe 0..%d and two value atoms: every reachable "
+                "representation x every insert(a,b,v) / insert_ranges(M) / remove_ranges(M) (M any "
+                "sorted disjoint list of ranges over the universe); TLC checks well-formedness and "
+                "the point-wise meaning on the loop-level model and prints every transition; each "
+                "is replayed into the real RangeMap (from_non_overlapping_sorted_ranges(before), "
+                "the operation, iter()) and compared on well-formedness and contents at every point "
+                "(exact piece equality is only a drift diagnostic); by induction this covers all "
+                "operation histories over the universe; part 2: one-class lexers `<class expr> = 0, "
+                "_ = 1` over the digits (sets, ranges, `_`, `|`, `#`, chained and nested differences, "
+                "variables) run on every boundary point +-1 against RefLexer.tla" % maxpoint,
+        "samples": [{"transition": trs[0]}] if trs else [],
+        "tlc_cmd": tlc.cmd, "exhaustive": True,
+    }
+    # Part 2: class expressions through real lexers against the reference
+    n = sizes(tier, 80, 800)
+    progs = [p for p in class_family(seed, n, 100)]
+    byid = {p.id: p for p in progs}
+    fr = replay_family("C11", progs, workers=8, tlc_timeout=900)
+    other = replay_violations(out, fr, lambda evs: proj_tokens(evs, stop_at_invalid=False), byid,
+                              "a character class accepts or rejects a character it should not")
+    for f_ in fr.build_failures:
+        prog = byid[f_["program"]]
+        out.violations.append({
+            "key": "class prog=%s" % prog.body().replace("\n", " "),
+            "desc": "class expression lexer failed to build (%s): %s :: %s" % (
+                f_["kind"], prog.body().replace("\n", " ")[:200], f_["message"][:200]),
+            "payload": {"kind": "build", "program": prog.to_json(), "src": prog.body(), "failure": f_}})
+    out.coverage["class_programs"] = fr.programs
+    out.coverage["class_behaviours_replayed"] = fr.runs
+    out.coverage["class_mismatching_runs"] = len(fr.mismatches)
+    out.coverage["states"] += fr.tlc.distinct
+    out.coverage["transitions"] += fr.tlc.states
+    out.coverage["traces_validated_against_impl"] += fr.ok_runs
+    out.coverage["samples"] += fr.samples[:2]
+    return out
+
+
+# ---------------------------------------------------------------------------------------------
+# C18: table generator
+# ---------------------------------------------------------------------------------------------
+
+SEG = [(0, 0), (1, 0x3FF), (0x400, 0xD7FE), (0xD7FF, 0xD7FF), (0xD800, 0xDBFF), (0xDC00, 0xDFFF),
+       (0xE000, 0xE000), (0xE001, 0xFFFF), (0x10000, 0x10FFFE), (0x10FFFF, 0x10FFFF)]
+
+
+def check_C18(tier, seed):
+    from common import Workspace, run_tlc, run_parallel, BUILD, HARNESS
+    out = Outcome("C18")
+    tlc = run_tlc("CharRangeGen.tla", "MC_CharRangeGen.cfg", workers=8, timeout=900, tag="C18")
+    if not tlc.ok:
+        raise ToolError("TLC found an error in CharRangeGen.tla itself:\n" + str(tlc.error))
+    live = run_tlc("CharRangeGen.tla", "MC_CharRangeGen_live.cfg", workers=8, timeout=900, tag="C18_live")
+    if not live.ok:
+        raise ToolError("TLC: CharRangeGen.tla termination failed:\n" + str(live.error))
+    cases = tlc.tagged.get("CRG", [])
+    ws = Workspace("C18")
+    ws.add_crate("c18_crg", 'include!("%s/src/main_crg.rs");\n' % HARNESS,
+                 deps='serde_json = "1"\nunicode-xid = "0.2.2"\n')
+    ok, err = ws.build()
+    if not ok:
+        raise ToolError("table generator harness does not build:\n" + err[-2000:])
+    d = os.path.join(BUILD, "C18")
+    cf = os.path.join(d, "cases.ndjson")
+    rf = os.path.join(d, "results.ndjson")
+    with open(cf, "w") as f:
+        for c in cases:
+            f.write(json.dumps(c, separators=(",", ":")) + "\n")
+    rcs = run_parallel([[ws.binary("c18_crg"), cf, rf]], timeout=1500)
+    if rcs[0] != 0:
+        raise ToolError("table generator harness failed (rc=%s)" % rcs[0])
+
+    def concretise(rs):
+        return [[SEG[a][0], SEG[b_][1]] for a, b_ in rs]
+
+    def split_gap(rs):
+        o = []
+        for lo, hi in rs:
+            if lo <= 0xD7FF and hi >= 0xE000:
+                o += [[lo, 0xD7FF], [0xE000, hi]]
+            else:
+                o.append([lo, hi])
+        return o
+
+    n_ok = 0
+    real = []
+    with open(rf) as f:
+        for line in f:
+            r = json.loads(line)
+            if r.get("done"):
+                continue
+            if "name" in r:
+                real.append(r)
+                key = "real predicate %s" % r["name"]
+                if r.get("panic") or not r.get("equal_split") or not r.get("scalar_ends"):
+                    out.violations.append({"key": key, "desc": "generator output for %s differs from the maximal runs of the predicate: %s" % (r["name"], json.dumps(r)[:300]),
+                                           "payload": {"kind": "crg", "case": r}})
+                else:
+                    n_ok += 1
+                continue
+            c = cases[r["i"]]
+            key = "predicate true exactly on segments %s" % c["p"]
+            exp = split_gap(concretise(c["out"]))
+            if r.get("panic"):
+                out.violations.append({"key": key, "desc": "generator panicked for %s" % key,
+                                       "payload": {"kind": "crg", "case": c}})
+            elif split_gap([list(x) for x in r["ranges"]]) != exp or any(
+                    0xD800 <= x <= 0xDFFF for rr in r["ranges"] for x in rr):
+                out.violations.append({"key": key, "desc": "%s: generator returned %s, the maximal scalar ranges are %s" % (
+                    key, [[hex(a), hex(b_)] for a, b_ in r["ranges"]], [[hex(a), hex(b_)] for a, b_ in exp]),
+                    "payload": {"kind": "crg", "case": c, "actual": r["ranges"], "expected": exp}})
+            else:
+                n_ok += 1
+    out.coverage = {
+        "states": tlc.distinct + live.distinct, "transitions": tlc.states + live.states,
+        "traces_validated_against_impl": n_ok,
+        "abstract_predicates": len(cases), "real_predicates": len(real),
+        "rule": "CharRangeGen.tla: one action per code point of an abstract universe of 10 points "
+                "(8 scalar segments {0} [1..3FF] [400..D7FE] {D7FF} | gap | {E000} [E001..FFFF] "
+                "[10000..10FFFE] {10FFFF}); TLC runs the machine for all 256 predicates, checks "
+                "Correct (exact, scalar end points, sorted, disjoint, non-adjacent, maximal) at "
+                "termination and termination itself under weak fairness; each predicate is "
+                "concretised as a real fn(char)->bool and the real generator's return value is "
+                "compared with the concretised model result (a run crossing the surrogate gap may be "
+                "one range or split at the gap); the 20 real predicates are compared with "
+                "brute-force maximal runs",
+        "samples": [{"abstract_predicate": cases[0]["p"], "model_result": cases[0]["out"]}] if cases else [],
+        "tlc_cmd": tlc.cmd, "exhaustive": True,
+    }
+    return out
+
+
+# ---------------------------------------------------------------------------------------------
+# C13: built-in classes
+# ---------------------------------------------------------------------------------------------
+
+BUILTINS = ["alphabetic", "alphanumeric", "ascii", "ascii_alphabetic", "ascii_alphanumeric",
+            "ascii_control", "ascii_digit", "ascii_graphic", "ascii_hexdigit", "ascii_lowercase",
+            "ascii_punctuation", "ascii_uppercase", "ascii_whitespace", "control", "lowercase",
+            "numeric", "uppercase", "whitespace", "XID_Start", "XID_Continue"]
+
+FAR = [(0x10FF00 + 4 * i, 0x10FF01 + 4 * i) for i in range(10)]   # ten far-away two-character ranges
+
+
+def c13_module(mid, lhs, ctx=None):
+    """A lexer `lhs [> ctx] = 0, ('a' = 1,) _ = 2` and its sweep function."""
+    far_txt = " ".join("'\\u{%x}'-'\\u{%x}'" % (a, b_) for a, b_ in FAR)
+    lhs = (lhs or "").replace("@FAR@", "[" + far_txt + "]")
+    if ctx is None:
+        rules = "%s = 0u8,\n            _ = 2u8," % lhs
+        body = """
+        let input = crate::all_scalars();
+        let mut acc = vec![false; 0x110000];
+        let mut n = 0usize;
+        for (item, ch) in L%(m)s::new(&input).zip(input.chars()) {
+            match item {
+                Ok((_, 0u8, _)) => acc[ch as usize] = true,
+                Ok(_) => {}
+                Err(e) => panic!("lexer error at {:?}: {:?}", ch, e),
+            }
+            n += 1;
+        }
+        assert_eq!(n, 1_112_064, "number of tokens");
+        crate::runs_of(&acc)""" % {"m": mid}
+    else:
+        rules = "'a' > %s = 0u8,\n            'a' = 1u8,\n            _ = 2u8," % ctx.replace("@FAR@", "[" + far_txt + "]")
+        body = """
+        let input = crate::ctx_pairs();
+        let mut acc = vec![false; 0x110000];
+        let chars: Vec<char> = input.chars().collect();
+        let mut n = 0usize;
+        for (k, item) in L%(m)s::new(&input).enumerate() {
+            match item {
+                Ok((_, t, _)) => {
+                    if k %% 2 == 0 {
+                        assert!(t == 0u8 || t == 1u8, "token {} for 'a' before {:?}", t, chars[k + 1]);
+                        acc[chars[k + 1] as usize] = t == 0u8;
+                    } else {
+                        assert!(t == 2u8, "token {} for {:?}", t, chars[k]);
+                    }
+                }
+                Err(e) => panic!("lexer error at token {}: {:?}", k, e),
+            }
+            n += 1;
+        }
+        assert_eq!(n, 2 * 1_112_063, "number of tokens");
+        crate::runs_of(&acc)""" % {"m": mid}
+    return """pub mod m%(m)s {
+    lexgen::lexer! {
+        pub L%(m)s -> u8;
+        rule Init {
+            %(rules)s
+        }
+    }
+    pub fn sweep() -> Vec<(u32, u32)> {%(body)s
+    }
+}
+""" % {"m": mid, "rules": rules, "body": body}
+
+
+def check_C13(tier, seed):
+    from common import Workspace, run_tlc, run_parallel, BUILD, HARNESS
+    from progs import norm, iv_diff
+    out = Outcome("C13", level="exploration")
+    # TLC part: the two generated membership-test shapes over all small tables
+    tlc = run_tlc("Lookup.tla", "MC_Lookup.cfg", workers=8, timeout=900, tag="C13_lookup")
+    if not tlc.ok:
+        raise ToolError("TLC found an error in Lookup.tla:\n" + str(tlc.error))
+    # lexers
+    mods = []
+    plan = []   # (module id, builtin, shape)
+    for bi_, name in enumerate(BUILTINS):
+        mods.append(c13_module("%d_nat" % bi_, "$$%s" % name))
+        plan.append(("%d_nat" % bi_, name, "natural"))
+        mods.append(c13_module("%d_far" % bi_, "$$%s | @FAR@" % name))
+        plan.append(("%d_far" % bi_, name, "union-with-ten-ranges"))
+        mods.append(c13_module("%d_low" % bi_, "$$%s # ['\\u{100}'-'\\u{10ffff}']" % name))
+        plan.append(("%d_low" % bi_, name, "minus-everything-from-U+100"))
+        if tier == "thorough" or bi_ % 4 == seed % 4:
+            mods.append(c13_module("%d_ctx" % bi_, None, ctx="$$%s" % name))
+            plan.append(("%d_ctx" % bi_, name, "right-context"))
+    reg = ", ".join('("%s", m%s::sweep as fn() -> Vec<(u32, u32)>)' % (m, m) for m, _, _ in plan)
+    gen = "\n".join(mods) + "\npub fn sweeps() -> Vec<(&'static str, fn() -> Vec<(u32, u32)>)> { vec![%s] }\n" % reg
+    # split over several binaries so that rustc runs in parallel
+    nb = 8
+    ws = Workspace("C13", opt_level=1)
+    names = []
+    per = [[] for _ in range(nb)]
+    for k, (m, _, _) in enumerate(plan):
+        per[k % nb].append(k)
+    for bi_ in range(nb):
+        sel = per[bi_]
+        text = "\n".join(mods[k] for k in sel) + "\npub fn sweeps() -> Vec<(&'static str, fn() -> Vec<(u32, u32)>)> { vec![%s] }\n" % (
+            ", ".join('("%s", m%s::sweep as fn() -> Vec<(u32, u32)>)' % (plan[k][0], plan[k][0]) for k in sel))
+        name = "c13_b%d" % bi_
+        d = os.path.join(ws.crate_dir(name), "src")
+        os.makedirs(d, exist_ok=True)
+        with open(os.path.join(d, "generated.rs"), "w") as f:
+            f.write(text)
+        ws.add_crate(name, 'mod generated;\ninclude!("%s/src/main_builtin.rs");\n' % HARNESS,
+                     deps='serde_json = "1"\nunicode-xid = "0.2.2"\nlexgen = { path = "%s/crates/lexgen" }\nlexgen_util = { path = "%s/crates/lexgen_util" }\n' % (
+                         __import__("common").REPO, __import__("common").REPO))
+        names.append(name)
+    ok, err = ws.build(timeout=2400)
+    if not ok:
+        # which lexer? report as violation of C13/C12 with the diagnostics
+        out.violations.append({"key": "build of built-in lexers", "desc": "lexers using built-in classes do not build: " + err[-600:],
+                               "payload": {"kind": "build", "stderr": err[-4000:]}})
+        out.coverage = {"evaluations": 1, "distinct_nontrivial": 2, "rule": "build failed", "samples": [err[-300:]]}
+        return out
+    d = os.path.join(BUILD, "C13")
+    cmds = []
+    outs = []
+    for name in names:
+        o = os.path.join(d, name + ".json")
+        if os.path.exists(o):
+            os.remove(o)
+        cmds.append([ws.binary(name), o])
+        outs.append(o)
+    rcs = run_parallel(cmds, timeout=2400)
+    sweeps = {}
+    preds = {}
+    for rc, o in zip(rcs, outs):
+        if rc != 0 or not os.path.exists(o):
+            raise ToolError("built-in sweep runner failed (rc=%s)" % rc)
+        with open(o) as f:
+            r = json.load(f)
+        for sw in r["sweeps"]:
+            sweeps[sw["id"]] = sw
+        for p_ in r["predicates"]:
+            preds[p_["name"].lower()] = [tuple(x) for x in p_["runs"]]
+    evals = 0
+    nontrivial = set()
+    samples = []
+
+    def sym_diff(a, b_):
+        return norm(iv_diff(a, b_) + iv_diff(b_, a))
+
+    import hashlib
+    natural = {}
+    for mid, name, shape in plan:
+        sw = sweeps.get(mid)
+        if sw is None:
+            raise ToolError("no result for sweep %s" % mid)
+        oracle = preds[name.lower()]
+        if "panic" in sw:
+            out.violations.append({"key": "builtin=%s shape=%s panic" % (name, shape),
+                                   "desc": "$$%s (%s): %s" % (name, shape, sw["panic"][:300]),
+                                   "payload": {"kind": "builtin", "name": name, "shape": shape, "panic": sw["panic"]}})
+            continue
+        got = [tuple(x) for x in sw["runs"]]
+        evals += 1112064
+        if shape == "natural":
+            natural[name] = got
+            want = oracle
+        else:
+            base = natural.get(name, oracle)
+            if shape == "union-with-ten-ranges":
+                want = norm(base + FAR)
+            elif shape == "minus-everything-from-U+100":
+                want = iv_diff(base, [(0x100, 0x10FFFF)])
+            else:
+                want = iv_diff(base, [(97, 97)])   # 'a' itself is not swept in the context lexer
+                got = iv_diff(got, [(97, 97)])
+        nontrivial.add((name, shape, len(got)))
+        df = sym_diff(got, want)
+        if df:
+            n_bad = sum(b_ - a + 1 for a, b_ in df)
+            digest = hashlib.sha1(json.dumps(df).encode()).hexdigest()[:12]
+            what = ("table differs from the Rust predicate" if shape == "natural"
+                    else "accepts a different set than the same class in its natural shape")
+            out.violations.append({
+                "key": "builtin=%s shape=%s mismatch=%s" % (name, shape, digest),
+                "desc": "$$%s (%s) %s on %d scalar values, first U+%04X..U+%04X" % (
+                    name, shape, what, n_bad, df[0][0], df[0][1]),
+                "payload": {"kind": "builtin", "name": name, "shape": shape, "mismatch_ranges": df[:50],
+                            "n_mismatching": n_bad}})
+        if len(samples) < 3:
+            samples.append({"builtin": name, "shape": shape, "accepted_runs_head": got[:5], "n_runs": len(got)})
+    out.coverage = {
+        "evaluations": evals,
+        "distinct_nontrivial": len(nontrivial),
+        "rule": "for each of the 20 built-in names, lexers `$$n = 0, _ = 2` in the natural shape, "
+                "`$$n | <ten far-away ranges>` (forces the binary-search table), `$$n # [U+100-U+10FFFF]` "
+                "(forces the guard chain for the big classes) and, for a rotating subset (all in the "
+                "thorough tier), `'a' > $$n` (right-context membership test) are compiled with the real "
+                "macro and run on a string of all 1,112,064 scalar values; the natural shape is compared "
+                "with char::is_* / unicode-xid (oracle imported at check time), the other shapes with "
+                "the natural shape; non-trivial = distinct (built-in, shape); TLC (Lookup.tla) checks "
+                "that both generated membership-test shapes equal union membership for all sorted "
+                "disjoint tables over a small universe",
+        "samples": samples,
+        "exhaustive": True,
+        "lookup_spec_states": tlc.distinct,
+        "tlc_cmd": tlc.cmd,
+    }
+    return out
+
+
 def setup():
     """Warm the cargo target directory (dependencies, lexgen with hooks) and check the tools."""
     import subprocess
@@ -764,6 +1363,9 @@ CHECKS = {
     "C08": check_C08,
     "C09": check_C09,
     "C10": check_C10,
+    "C11": check_C11,
+    "C13": check_C13,
     "C14": check_C14,
     "C15": check_C15,
+    "C18": check_C18,
 }
